@@ -32,5 +32,43 @@ CLAIMED = {
    technique='Coq proof (total functions over byte lists, finite sweep by vm_compute) + differential correspondence check'),
 }
 
+FULL = {
+ 'C01': dict(
+   text='Master refinement theorem for both index widths: from an initialised buffer, every history of insert/remove/get/get_mut/contains/lowest/len/is_empty/is_full/capacity (and growth, re-open) on the concrete model (header words + record array, with the Rust panic sites explicit) returns exactly what a capacity-bounded sorted association list returns, with no Panic/Fuel outcome. Proved through an indexed-tree layer (rotations, rebalancing from stored heights) and a representation relation to the array (link lemmas for every C function, including the successor splice of remove); clause corollaries (never overwrites, remove only that key, latest value, minimum key). Model tied to the crate on every run: random and exhaustive histories, single steps from every AVL shape up to 8/11 nodes and sparse Fibonacci shapes up to 12 levels, both handle disciplines, six layouts.',
+   note=BASE_NOTE + 'Keys are integers (any totally ordered key type is order-isomorphic on a finite history); u32 tree for capacities below 2^32-1, u8 tree up to 255 (growth up to 254 records).',
+   technique=TECH),
+ 'C04': dict(
+   text='Theorems: decode(encode s) = s for every invariant state of every collection (a handle is a function of the bytes); opening a collection whose record count matches its capacity is the identity (writes nothing); a history interrupted at any point by dropping the handle and re-opening from the bytes (also between other guard cells, i.e. relocated) continues identically; the bucket function depends only on value and capacity. Tie: each case is run uninterrupted, re-opened before every operation, and relocated to a differently placed copy after every operation, and the three implementation runs are compared with each other and with the model on results, contents and bytes.',
+   note=BASE_NOTE + 'The model has no addresses: that the Rust handle keeps no hidden state and that links are indices, not pointers, is established by the three-way differential run, not by a theorem.',
+   technique=TECH),
+ 'C05': dict(
+   text='Frame theorem for the only raw-pointer accesses of the crate (the two ptr::copy of the array sets), modelled as an UNCHECKED memmove over a flat memory containing arbitrary guard cells on both sides: every operation leaves the guards unchanged and its result and contents are independent of them, for every history; a negative control shows the theorem fails for the upstream copy count. All other code is safe Rust whose out-of-range index is a panic; the model shows that panic unreachable (C12). Tie: buffers embedded in guard regions under two fill patterns (results must not differ, guards must be intact), audit of every unsafe site in /repo/src against an audited list.',
+   note=BASE_NOTE + 'That safe Rust cannot touch memory outside its slices is the language guarantee (trusted); from_utf8_unchecked sites rely on C11.',
+   technique=TECH),
+ 'C06': dict(
+   text='Theorems: in every reachable state (any history incl. growth) the represented tree is height-balanced with exact stored heights; levels are bounded by the Fibonacci-like minimum-node function (tight; closed form 2^(levels/2) <= n+1; at most 11 resp. 45 levels); the comparison log of get/contains/get_mut/insert/remove is exactly the keys on one root-to-leaf path, each at most twice, so at most `levels` distinct keys; the array-set binary search makes at most floor(log2 n)+1 = ceil(log2(n+1)) comparisons. Tie: a key type that logs its comparisons, the decoded shape of the implementation bytes compared with the model after every operation.',
+   note=BASE_NOTE,
+   technique=TECH),
+ 'C07': dict(
+   text='Theorems (trees of both widths, hash set): from every invariant/reachable state with n entries and capacity c, any c-n distinct absent keys can all be inserted without panic, afterwards the collection is full and refuses; is_full iff n = c; the slot handed out is never a live slot; a released slot is the next one handed out. Based on an allocator invariant (bump cursor incl. the u8 wrap at 255, intrusive free list, stale terminator after growth). Tie: a fill probe on a copy of the state after random/exhaustive/sparse histories, slot numbers compared.',
+   note=BASE_NOTE,
+   technique=TECH),
+ 'C08': dict(
+   text='Theorems: extending the buffer by k zeroed records and re-opening mutably preserves the invariant and the contents, raises the capacity by exactly k, and exactly k more entries fit; holds for repeated growth and any continuation (growth is an operation of the master refinement); a read-only view of the extended buffer reports the old capacity and the same contents; array sets keep their members and gain exactly k slots. Tie: growth at random points of random histories and from every enumerated shape, with recycled and never-used slots present.',
+   note=BASE_NOTE + 'u8 tree: total records at most 254 (the property\'s own bound); growing to exactly 255 records with a released slot outstanding panics in the model and in the crate and is outside the quantifier.',
+   technique=TECH),
+ 'C09': dict(
+   text='Theorems: a refused insert (duplicate or full), a remove/take of an absent element and every query return the very same state (Leibniz), hence byte-identical encodings, for trees, hash set and array sets. Tie: buffer digest before/after every call the implementation itself reports as refused or that is a query; includes a hash value type whose equality ignores a payload and a one-byte prefix over 300 slots.',
+   note=BASE_NOTE,
+   technique=TECH),
+ 'C10': dict(
+   text='Theorems: an independent reader of the documented format (written from the prose: header word order, 1-based links, free chain through the height/next register, SipHash bucket rule) applied to the encoding of any invariant/reachable state recovers exactly the contents the API reports, the header words, and a partition of all slots into live / recycled / never used; encoding length = data_len; insert returns the slot holding the entry; live entries never move. Tie: whole buffers compared byte-for-byte with the model\'s encode for six layouts with padding, and the extracted reader is run on the implementation\'s bytes after every operation.',
+   note=BASE_NOTE + 'SipHash-1-3 with zero keys is modelled in Base/Sip.v (checked to reproduce DefaultHasher bit-for-bit on every run through the byte comparison); the hash-set theorems hold for an arbitrary hash function.',
+   technique=TECH),
+ 'C12': dict(
+   text='Theorems: no Panic and no Fuel outcome in any history from any accepted configuration (capacities 0, 1, 2, ... up to 255 for the u8 tree, whose totality depends on the height bound; every prefix width; slot counts beyond what the prefix can count); an all-zero buffer reads as empty through every read-only query of every collection. Tie: boundary configurations with overflow checks on, watchdog for endless loops, zero buffers of many lengths.',
+   note=BASE_NOTE,
+   technique=TECH),
+}
 PENDING = ['C01', 'C04', 'C05', 'C06', 'C07', 'C08', 'C09', 'C10', 'C12']
 NOT_APPLICABLE = {p: 'not yet claimed: the model, the correspondence check and the oracles for this property run (bin/check %s), but its Coq theorems for the AVL trees are still being proved in this session; it will be claimed when Properties/%s.v is complete' % (p, p) for p in PENDING}
